@@ -229,7 +229,7 @@ def check_property(prop, tier, a):
                         'lineno': o['witness'].get('lineno'), 'detail': o['witness'].get('detail'),
                         'path': o['witness'].get('path'), 'native_replay': rep,
                         'smt2': o['witness'].get('smt', '')})
-            structural_global = o['contract'] == 'structural' and any(k in o['oid'] for k in ('::ownership:memo:', '::ownership:global:', '::registry-write:', '::ownership:attr:self.', '::ownership:mut:self.', '::ownership:item:self.'))
+            structural_global = o['contract'] == 'structural' and any(k in o['oid'] for k in ('::ownership:memo:', '::ownership:global:', '::registry-write:', '::ownership:attr:self.', '::ownership:mut:self.', '::ownership:item:self.', '::per-execution-allocation:'))
             if rep.get('status') != 'reproduced' and baseline.get(o['oid']) != 'proved' and not structural_global:
                 # a countermodel that does not replay, on an obligation that never verified on the committed
                 # baseline: undecided (DESIGN 2.1 step 6), not a violation
@@ -237,6 +237,28 @@ def check_property(prop, tier, a):
                 continue
             violations.append({'fingerprint': o['oid'], 'record': rec, 'reproduced': rep.get('status') == 'reproduced',
                                'what': f"{o['kind']} obligation '{o['label']}' of {o['contract']} fails"})
+
+    # --- proofs lost on changed code ---------------------------------------------------
+    # An obligation that was discharged on the committed baseline and is not discharged any more (solver: unknown) counts as
+    # failed when the code it was generated from (function under contract + callees verified inline, docstrings / comments /
+    # layout aside) differs from the baseline's: the verifier no longer accepts the changed function.  On unchanged code an
+    # 'unknown' is solver instability and stays undecided.
+    src_now = {r['key']: (r.get('target') or {}).get('ast_sha') for r in results}
+    src_base = baseline.get('__src__', {}) if isinstance(baseline.get('__src__'), dict) else {}
+    lost = []
+    for o in agg.values():
+        if o['verdict'] == 'unknown' and baseline.get(o['oid']) == 'proved':
+            hb, hn = src_base.get(o['contract']), src_now.get(o['contract'])
+            if hb and hn and hb != hn:
+                lost.append(o)
+                tgt = next((r['target'] for r in results if r['key'] == o['contract']), None)
+                rec = {'property': prop, 'kind': 'obligation-not-discharged', 'contract': o['contract'], 'obligation': o['oid'], 'function': tgt,
+                       'tier': o['tier'], 'backend': 'z3 ' + z3_version(), 'solver_answer': 'unknown (timeout / incomplete quantifier instantiation)',
+                       'baseline_verdict': 'proved', 'code_hash_baseline': hb, 'code_hash_now': hn, 'model': None,
+                       'note': 'this obligation was discharged for the committed tree; the function (or a callee verified inline) has changed and the '
+                               'verifier no longer accepts it. No counterexample was produced.'}
+                violations.append({'fingerprint': o['oid'], 'record': rec, 'reproduced': False,
+                                   'what': f"{o['kind']} obligation '{o['label']}' of {o['contract']} is no longer discharged after the function changed"})
 
     # --- native function-level T3 ------------------------------------------------------
     fn_evals = fn_distinct = 0
@@ -381,6 +403,7 @@ def check_property(prop, tier, a):
     if a.rebaseline:
         allb = json.load(open(bp)) if os.path.exists(bp) else {}
         allb[prop] = {oid: o['verdict'] for oid, o in sorted(agg.items())}
+        allb[prop]['__src__'] = {r['key']: r['target']['ast_sha'] for r in results if (r.get('target') or {}).get('ast_sha')}
         json.dump(allb, open(bp, 'w'), indent=1, sort_keys=True)
 
     print(f'{prop} [{tier}] T1 obligations {n_t1_proved}/{n_t1} proved ({coverage["vcs_total"]} VCs, {coverage["paths_total"]} paths), '
